@@ -16,7 +16,7 @@ un-headed default-component lines are never put directly after a headed block, w
 entry-order (entries of every states/parameters block shuffled), line-order (assignment lines of every expressions block
 shuffled: use before definition).  The independent reader (modelgen.RefModel) must see identical definitions and component
 membership in both texts, otherwise the case is a harness error.  Checked: the permuted text loads; ODE.__eq__ (same name);
-numpy and C code texts identical; state / parameter / monitor index tables of the exec'ed numpy module identical; numpy code
+(signature suffix names the differing operand: comments / component-order / component-content); numpy and C code texts identical; state / parameter / monitor index tables of the exec'ed numpy module identical; numpy code
 with schemes explicit_euler + generalized_rush_larsen identical when the base generates them.  Bases that gotranx cannot
 load/generate (or needs > 8 s for) are skipped.  quick: up to 1500 cases (500 per permutation kind), thorough: up to 18000.
 Non-trivial = permuted text differs from the base text; distinct by sha1(base, permuted)."""
@@ -113,15 +113,15 @@ def build(case):
     return {"base": render(comments, blocks), "ode": render(comments, got[0]), "perm": case["perm"], "desc": got[1]}
 
 
-def _eq_detail(a, b) -> str:
+def _eq_detail(a, b):
+    """(sub-kind, text): which operand of ODE.__eq__ differs"""
     if a.comments != b.comments:
-        return f"comments differ: {a.comments} != {b.comments}"
+        return "comments", f"comments differ: {a.comments} != {b.comments}"
     na, nb = [c.name for c in a.components], [c.name for c in b.components]
-    if na != nb and sorted(na) == sorted(nb):
-        same = all(a.get_component(n) == b.get_component(n) for n in na)
-        return f"component tuples differ in order: {na} != {nb}; components pairwise equal by name: {same}"
+    if sorted(na) == sorted(nb) and all(a.get_component(n) == b.get_component(n) for n in na):
+        return "component-order", f"the component tuples hold pairwise equal components in a different order: {na} != {nb}"
     bad = [n for n in na if n not in nb or a.get_component(n) != b.get_component(n)]
-    return f"components {bad} differ (component names {na} vs {nb})"
+    return "component-content", f"components {bad} differ (component names {na} vs {nb})"
 
 
 def check(case):
@@ -151,8 +151,8 @@ def check(case):
     if c["ode"] != c["base"]:
         res["nontrivial"].append(cm.sha([c["base"], c["ode"]]))
 
-    def add(sig, what, exp=None, act=None, detail=""):
-        res["failures"].append(cm.fail(f"C10:{sig}:{kind}", what, inp, exp, act, f"{detail} | permutation: {c['desc']}"))
+    def add(sig, what, exp=None, act=None, detail="", sub=""):
+        res["failures"].append(cm.fail(f"C10:{sig}:{kind}" + (f":{sub}" if sub else ""), what, inp, exp, act, f"{detail} | permutation: {c['desc']}"))
 
     try:
         ode = cm.load(c["ode"])
@@ -166,7 +166,8 @@ def check(case):
         add(f"eq-raises:{cm.exc_name(e)}", "ODE.__eq__ raises", True, cm.exc_site(e), cm.short(e))
     else:
         if not equal:
-            add("eq-false", "ODE.__eq__ is false between a model and its permuted text", True, False, _eq_detail(base["ode"], ode))
+            sub, text = _eq_detail(base["ode"], ode)
+            add("eq-false", "ODE.__eq__ is false between a model and its permuted text", True, False, text, sub)
     for name, gen, ref_code in (("numpy", cm.py_code, base["py"]), ("C", cm.c_code, base["c"])):
         try:
             code = gen(ode)
